@@ -98,3 +98,28 @@ Theorem C18_pdu_strict_atomicity_refuted :
     apply_op (fp_pdu p) o <> (true, fp_pdu p1).
 Proof. exact fa_strict_atomicity_refuted. Qed.
 Print Assumptions C18_pdu_strict_atomicity_refuted.
+
+(* (3) ownership on the send path: decision-tree model of coap_send_lkd / coap_send_internal
+   (every validity test, allocation result and socket outcome is one bit of the environment) *)
+From LibcoapV Require Import Fault.SendOwner Fault.SendOwnerProofs.
+
+(* in every branch, each failure branch included: nothing is left dangling, the PDU given to
+   coap_send is released or held by exactly one of {send queue node, delay queue}, an
+   encrypted PDU replaces the released original, and COAP_INVALID_MID / DROPPED is returned
+   exactly when nothing is kept *)
+Theorem C18_send_consumes : forall v, fa_env_wf v -> fa_send_ok (fa_send v) = true.
+Proof. exact fa_send_consumes. Qed.
+Print Assumptions C18_send_consumes.
+
+(* the part the driver can see of a call is accepted by the extracted acceptor, which rejects
+   a leaked PDU, a PDU in two queues and a released PDU that is still queued *)
+Theorem C18_send_obs_accepted : forall v,
+  fa_env_wf v -> fa_obs_ok (fa_send_obs (fa_send v)) = true.
+Proof. exact fa_send_obs_accepted. Qed.
+Print Assumptions C18_send_obs_accepted.
+
+Theorem C18_send_acceptor_rejects :
+  fa_obs_ok (false, true, false, false) = false /\ fa_obs_ok (true, true, true, true) = false /\
+  fa_obs_ok (true, false, true, false) = false.
+Proof. repeat split; reflexivity. Qed.
+Print Assumptions C18_send_acceptor_rejects.
